@@ -242,18 +242,20 @@ class Proxy:
             )._port
         # --ports flag can also use 0 as value for ephemeral port selection.
         # Here, we override flags.ports to reflect actual listening ports.
-        ports = set()
-        offset = 1 if self.flags.unix_socket_path else 0
-        for index in range(offset, offset + len(self.flags.ports)):
-            ports.add(
-                cast(
-                    'TcpSocketListener',
-                    self.listeners.pool[index],
-                )._port,
-            )
-        if self.flags.port in ports:
-            ports.remove(self.flags.port)
-        self.flags.ports = list(ports)
+        # Listeners for additional ports follow the first listener, which
+        # is either the unix socket or the primary port listener.
+        ports: List[int] = []
+        for index in range(1, 1 + len(self.flags.ports)):
+            port = cast(
+                'TcpSocketListener',
+                self.listeners.pool[index],
+            )._port
+            assert port is not None
+            if port not in ports and (
+                self.flags.unix_socket_path or port != self.flags.port
+            ):
+                ports.append(port)
+        self.flags.ports = ports
         # Write ports to port file
         self._write_port_file()
         # Setup EventManager
